@@ -34,3 +34,4 @@ open('/verif/work/cov/uncovered.txt','w').write('\n'.join(out)+'\n')
 print(len(out), 'uncovered executable lines outside test modules -> work/cov/uncovered.txt')
 PY
 tail -20 work/cov/report.txt
+rm -f /repo/*.profraw /verif/harness/*.profraw /verif/*.profraw 2>/dev/null || true
